@@ -331,16 +331,20 @@ def _alr_contract(name, languages_ty, props):
         canaries={"no-lookups": f"len({_ST}) == {_N0} + 2"},
         loops={
             "for lookup in lookups#3": Loop(index="j", invariants={
-                "len": f"len({_ST}) == len(st0) + 2 + j",
-                "old": f"{_ST}[:len(st0)] == st0",
-                # every listed statement exists already (the statement created next is a different object)
-                "alloc": f"all(allocated({_ST}[n]) for n in range(len({_ST})))",
-                "head": f"{_SCRIPT.format(n='len(st0)')} and {_DFLT.format(n='len(st0) + 1')} and fresh({_ST}[len(st0)]) and fresh({_ST}[len(st0) + 1])",
-                "refs": f"all({_ST}[len(st0) + 2 + b].kind == 'lookupref' and {_ST}[len(st0) + 2 + b].lookup == lookups[b] and fresh({_ST}[len(st0) + 2 + b]) for b in range(j))",
+                "shape": f"{_ST} == st0 + new and len(new) == 2 + j",
+                # the statements made so far are new objects that exist now (the one created next is yet another object)
+                "new": "all(fresh(new[b]) and allocated(new[b]) for b in range(len(new)))",
+                "head": "new[0].kind == 'script' and new[0].script == script and new[1].kind == 'language' and new[1].language == 'dflt' and new[1].include_default",
+                "refs": "all(new[2 + b].kind == 'lookupref' and new[2 + b].lookup == lookups[b] for b in range(j))",
             }),
         },
-        # ghost snapshot: the statements at entry
-        ghost_vars={"st0": (List(Ref("FeaStmt")), "feature.statements")},
+        # ghost: the statements at entry, and the list of statements created so far
+        ghost_vars={"st0": (List(Ref("FeaStmt")), "feature.statements"), "new": (List(Ref("FeaStmt")), "[]")},
+        ghost={
+            "feature.statements.append(ast.ScriptStatement(script))": ["new = new + [feature.statements[len(feature.statements) - 1]]"],
+            "feature.statements.append(ast.LanguageStatement('dflt', include_default=True))": ["new = new + [feature.statements[len(feature.statements) - 1]]"],
+            "feature.statements.append(ast.LookupReferenceStatement(lookup))": ["new = new + [feature.statements[len(feature.statements) - 1]]"],
+        },
     )
 
 
